@@ -120,6 +120,7 @@ def mkdir (t : Tree) (p : Path) : Except Err Tree :=
 /-- `memFS.RemoveAll`. -/
 def removeAll (t : Tree) (p : Path) : Except Err Tree :=
   match walk t p with
+  | .error .notExist => .ok t        -- like os.RemoveAll: nothing to remove
   | .error e => .error e
   | .ok _ =>
     if p = [] then .error .invalid
@@ -136,8 +137,7 @@ def stat (t : Tree) (p : Path) : Except Err Entry :=
 
 /-- `memFS.Rename` on cleaned names. -/
 def rename (t : Tree) (a b : Path) : Except Err Tree :=
-  if a = b then .ok t
-  else if under a b then .error .invalid
+  if a ≠ b ∧ under a b then .error .invalid
   else
     match walk t a with
     | .error e => .error e
@@ -150,6 +150,7 @@ def rename (t : Tree) (a b : Path) : Except Err Tree :=
         match get t a with
         | none => .error .notExist
         | some ea =>
+          if a = b then .ok t else
           let blocked : Option Err :=
             match ea with
             | .file _ => none
@@ -193,7 +194,6 @@ def openFile (t : Tree) (p : Path) (f : Flags) : Except Err (Tree × OpenInfo) :
     if p = [] then
       if f.wr then .error .permission
       else .ok (t, ⟨[], true, kidsOf t []⟩)
-    else if f.sync || f.append then .error .invalid
     else
       let n := get t p
       if f.create && f.excl && n.isSome then .error .exist
@@ -207,8 +207,8 @@ def openFile (t : Tree) (p : Path) (f : Flags) : Except Err (Tree × OpenInfo) :
           if f.wr && f.trunc then .ok (setEntry t p (.file []), ⟨p, false, []⟩)
           else .ok (t, ⟨p, false, []⟩)
 
-/-- `memFile.Write` of `p` at offset `pos` into contents `data`: overwrite, zero-fill
-a hole (even for an empty `p`), append.  Returns the new contents and offset. -/
+/-- The body of `memFile.Write` for a non-empty `p` at offset `pos` into contents `data`: overwrite,
+zero-fill a hole, append.  Returns the new contents and offset. -/
 def writeAt (data : List Nat) (pos : Nat) (p : List Nat) : List Nat × Nat :=
   if pos < data.length then
     let n := min p.length (data.length - pos)
@@ -417,15 +417,17 @@ def step (s : State) : Op → State × Res
     match s.handles[h]? with
     | none => (s, .badHandle)
     | some hd =>
-      if hd.isDir then (s, .err)
+      if hd.isDir || hd.acc == 0 then (s, .err)        -- ErrInvalid / not opened for writing
+      else if data = [] then (s, .wrote 0)             -- a zero-length Write changes nothing
       else
-        let r := Mem.writeAt (fileData s hd) hd.pos data
+        let r := Mem.writeAt (fileData s hd) (if hd.app then (fileData s hd).length else hd.pos) data
         (setPos (setFileData s hd r.1) h r.2, .wrote data.length)
   | .read h n =>
     match s.handles[h]? with
     | none => (s, .badHandle)
     | some hd =>
-      if hd.isDir then (s, .err)
+      if n = 0 then (s, .data [])
+      else if hd.isDir || hd.acc == 1 then (s, .err)   -- ErrInvalid / not opened for reading
       else
         let d := fileData s hd
         if hd.pos ≥ d.length then (s, .eof)
@@ -449,13 +451,12 @@ def step (s : State) : Op → State × Res
         let np := min (hd.pos + count.toNat) hd.kids.length
         (setPos s h np, .listing ((hd.kids.drop hd.pos).take (np - hd.pos)))
       else
-        -- `old = 0`: the whole snapshot, also after a partial read
-        (setPos s h hd.kids.length, .listing hd.kids)
+        -- the remaining entries
+        (setPos s h hd.kids.length, .listing (hd.kids.drop hd.pos))
   | .rename a b =>
-    if a = b then (s, .ok)
-    else match okOf (Mem.rename s.tree a b) with
-      | none => (s, .err)
-      | some t2 => (effRename s a b t2, .ok)
+    match okOf (Mem.rename s.tree a b) with
+    | none => (s, .err)
+    | some t2 => if a = b then (s, .ok) else (effRename s a b t2, .ok)
   | .removeAll p =>
     match okOf (Mem.removeAll s.tree p) with
     | none => (s, .err)
@@ -470,10 +471,6 @@ end Mem
 
 namespace Os
 
-/-- write(2) at the handle's offset (at the end for `O_APPEND`); a zero-length write does nothing. -/
-def writeAt (data : List Nat) (pos : Nat) (app : Bool) (p : List Nat) : List Nat × Nat :=
-  if p = [] then (data, pos)
-  else Mem.writeAt data (if app then data.length else pos) p
 
 /-- One `webdav.Dir` / `*os.File` call. -/
 def step (s : State) : Op → State × Res
@@ -489,9 +486,11 @@ def step (s : State) : Op → State × Res
     match s.handles[h]? with
     | none => (s, .badHandle)
     | some hd =>
-      if hd.isDir || hd.acc == 0 then (s, .err)
+      if hd.isDir || hd.acc == 0 then (s, .err)        -- EBADF
+      else if data = [] then (s, .wrote 0)             -- a zero-length write(2) does nothing
       else
-        let r := Os.writeAt (fileData s hd) hd.pos hd.app data
+        -- write(2) at the handle's offset, at the end for `O_APPEND`
+        let r := Mem.writeAt (fileData s hd) (if hd.app then (fileData s hd).length else hd.pos) data
         (setPos (setFileData s hd r.1) h r.2, .wrote data.length)
   | .read h n =>
     match s.handles[h]? with
